@@ -140,6 +140,61 @@ theorem session_remote_put_applied (c : Bitmap.Cfg) (hc : GoodCfg c) (ops : List
   · show AMap.lookup (AMap.insert s.store k r) k = some r
     simp
 
+/-- Start does not lose what other nodes write while it reads the store (since fix 700037a: Watch first, then the
+    load with remote changes held off): for EVERY state, enumeration order and sequence of remote puts and deletes
+    that reach the store after the Query of the load step was answered, the node ends up exactly as if it had
+    restarted first and received those changes afterwards, in order. -/
+theorem session_start_gap_replayed (s : Session.State) (order : List Nat) (w : List Session.Remote) :
+    Session.startGap s order w = w.foldl Session.applyRemote (Session.restart s order) :=
+  Session.startGap_eq s order w
+
+/-- … in particular an allocation another node announces in that window is applied with the address it
+    announces: after any admissible history and a restart in any order, a put for a prefix that is free (or the
+    subscriber's) after the load makes Get answer exactly that prefix, and the store holds the record. -/
+theorem session_start_gap_put_applied (c : Bitmap.Cfg) (hc : GoodCfg c) (ops : List Session.Op)
+    (hv : Session.Valid (Session.init c) ops) (order : List Nat)
+    (hcov : ∀ k r, AMap.lookup (Session.run (Session.init c) ops).store k = some r → k ∈ order)
+    (k : Nat) (r : Rec)
+    (happ : Session.applicable (Session.restart (Session.run (Session.init c) ops) order) k r = true) :
+    Session.get (Session.startGap (Session.run (Session.init c) ops) order [.put k r]) k = .okAddr r.addr r.plen ∧
+      AMap.lookup (Session.startGap (Session.run (Session.init c) ops) order [.put k r]).store k = some r := by
+  obtain ⟨hI, hcfg⟩ := sinv_run ops (Session.init c) (sinv_init c hc.2.2) hc.2.2 hv
+  have hc' : (Session.run (Session.init c) ops).a.cfg.plen - (Session.run (Session.init c) ops).a.cfg.poolPrefix < 64 := by
+    rw [hcfg]; exact hc.2.2
+  have hR := sinv_restart hI hc' order hcov
+  rw [Session.startGap_eq]
+  simp only [List.foldl_cons, List.foldl_nil, Session.applyRemote]
+  generalize Session.restart (Session.run (Session.init c) ops) order = s at *
+  obtain ⟨i, hpre, hpl, hcfg', _, hlk⟩ := applyPut_spec hR happ
+  constructor
+  · have h1 : (Session.remotePut s k r).a = Session.applyPut s.a k r := rfl
+    unfold Session.get Bitmap.lookup
+    rw [h1, hlk k]
+    simp only [if_true]
+    rw [hcfg', hpre, hpl]
+  · show AMap.lookup (AMap.insert s.store k r) k = some r
+    simp
+
+/-- lease mode: the same replay equation for Start with a window of remote changes -/
+theorem lease_start_gap_replayed (s : Lease.State) (order : List Nat) (w : List Session.Remote) :
+    Lease.startGap s order w = w.foldl Lease.applyRemote (Lease.restart s order) :=
+  Lease.startGap_eq s order w
+
+/-- The defect fix 700037a removed, on the model of Start as it WAS (loadAllocations, then Watch): s1 holds
+    10.0.0.0; while the restarting node reads the store another node records 10.0.0.1 for s2 — nobody is watching
+    yet, memory never learns of it, and the node hands 10.0.0.1 to s3 although the store names s2 for it.  With
+    the watch registered first the put is applied and s3 gets 10.0.0.2. -/
+theorem start_gap_unwatched_witness :
+    let c : Bitmap.Cfg := { famBits := 32, poolPrefix := 29, plen := 32, base := 0x0a000000 }
+    let r : Rec := { addr := 0x0a000001, plen := 32, epoch := 0 }
+    let s := Session.run (Session.init c) [.alloc 1 false]
+    let u := Session.startGapUnwatched s [1] [.put 2 r]
+    let w := Session.startGap s [1] [.put 2 r]
+    Session.get u 2 = .none ∧ AMap.lookup u.store 2 = some r ∧
+      (Session.alloc u 3 false).2 = .okAddr 0x0a000001 32 ∧
+      Session.get w 2 = .okAddr 0x0a000001 32 ∧ (Session.alloc w 3 false).2 = .okAddr 0x0a000002 32 := by
+  decide
+
 /-- KF-dist-remote-collision: the guard `applicable` of the theorems above is not vacuous talk — a remote put
     that names a prefix another subscriber holds (what two nodes produce when each hands out the lowest free
     unit) is refused by SetAllocation, handleRemoteChange and loadAllocations DROP the refusal, the store keeps
@@ -165,6 +220,11 @@ example : Session.Valid (Session.init { famBits := 32, poolPrefix := 29, plen :=
 example : Session.get (Session.run (Session.init { famBits := 32, poolPrefix := 29, plen := 32, base := 0x0a000000 })
     [.alloc 1 false, .alloc 1 true, .alloc 2 true, .remotePut 3 { addr := 0x0a000005, plen := 32, epoch := 0 },
      .release 1 true, .restart [3, 1]]) 3 = .okAddr 0x0a000005 32 := by decide
+/-! non-vacuity: an admissible history with a restart during which another node announces and withdraws -/
+example : Session.Valid (Session.init { famBits := 32, poolPrefix := 29, plen := 32, base := 0x0a000000 })
+    [.alloc 1 false, .alloc 2 false,
+     .restartGap [2, 1] [.put 3 { addr := 0x0a000005, plen := 32, epoch := 0 }, .del 1], .alloc 4 false] := by
+  simp only [Session.Valid]; decide
 
 end session
 
@@ -205,6 +265,69 @@ theorem pool_unique (c : Bitmap.Cfg) (hc : GoodCfg c) (ops : List Pool.Op) (k₁
   have a := hI.fwd k₁ i h₁
   have b := hI.fwd k₂ i h₂
   rw [a] at b; simpa using b
+
+/-- The same agreement for the SECOND PoolAllocator over the shared store: whatever the two pools and the third
+    pool's records do to each other (every write of one can be refused because of the other), a subscriber of pool
+    q has a record exactly when q's allocator holds a prefix for it, and the record is that prefix — a refused
+    write is never half applied. -/
+theorem pool_q_store_failure_agrees (c : Bitmap.Cfg) (hc : GoodCfg c) (ops : List Pool.Op) (k : Nat) :
+    (AMap.lookup (Pool.run (Pool.init c) ops).q.store k).map (fun r => (r.addr, r.plen)) =
+      match Session.get (Pool.run (Pool.init c) ops).q k with
+      | .okAddr a l => some (a, l)
+      | _ => none := by
+  have hI := Pool.qinv_run ops (Pool.init c) (Session.sinv_init c hc.2.2)
+  have := hI.agree k
+  rw [this]
+  unfold Session.get Bitmap.lookup
+  cases AMap.lookup (Pool.run (Pool.init c) ops).q.a.allocated k <;> rfl
+
+/-- One address, one owner across the pools that share a store: after ANY history of allocations and releases
+    in both pools (overlapping ranges: every unit of one is a unit of the other), records of a third pool, store
+    failures and writes through the callers' pointers, no address is recorded for a subscriber of pool p and for
+    a subscriber of pool q, and none for a pool's subscriber and the third pool. -/
+theorem pools_share_no_address (c : Bitmap.Cfg) (ops : List Pool.Op) (k k' : Nat) (r r' : Rec)
+    (h : AMap.lookup (Pool.run (Pool.init c) ops).s.store k = some r)
+    (h' : AMap.lookup (Pool.run (Pool.init c) ops).q.store k' = some r') :
+    r.addr ≠ r'.addr ∧ (Pool.run (Pool.init c) ops).foreign.contains r.addr = false ∧
+      (Pool.run (Pool.init c) ops).foreign.contains r'.addr = false := by
+  have hD := Pool.disj_run ops (Pool.init c) (Pool.disj_init c)
+  exact ⟨hD.pq k r k' r' h h', hD.pf k r h, hD.qf k' r' h'⟩
+
+/-- The store owns its records: a caller writing through anything it was handed (the *net.IPNet Allocate or
+    Lookup returned, a record it passed to SaveAllocation, what GetByPool / GetBySubscriber / GetByIP returned)
+    changes nothing — for EVERY history, removing those writes leaves the final state and every other answer
+    as they are.  (The model's `scribble` is the identity because the code copies since fix 1525014; the
+    correspondence runs perform the writes on the real store.) -/
+theorem pool_scribble_unobservable (st : Pool.State) (ops : List Pool.Op) :
+    Pool.run st (ops.filter Pool.notScribble) = Pool.run st ops ∧
+    Pool.answers st (ops.filter Pool.notScribble) =
+      ((Pool.answers st ops).zip ops).filterMap (fun p => if Pool.notScribble p.2 then some p.1 else none) :=
+  ⟨Pool.run_drop_scribble ops st, Pool.answers_drop_scribble ops st⟩
+
+/-- The defect fix 1525014 removed, on the model of the store as it WAS (`Aliased`: Allocate returned the stored
+    record's own *net.IPNet): s1 is given 10.0.0.0, the caller writes 10.0.0.128 through the result, s1 releases —
+    RemoveAllocation computes the by-IP key from the (changed) stored record and leaves the entry for 10.0.0.0
+    behind: it names s1 for ever, and every later subscriber is refused with ErrConflict on a free address
+    (the first-free scan returns the same unit each time: the pool is wedged). -/
+theorem store_alias_witness :
+    let c : Bitmap.Cfg := { famBits := 32, poolPrefix := 30, plen := 32, base := 0x0a000000 }
+    let s1 := (Aliased.alloc (Aliased.init c) 1).1
+    let s2 := (Aliased.release (Aliased.poke s1 1 0x0a000080) 1).1
+    (Aliased.alloc (Aliased.init c) 1).2 = .okAddr 0x0a000000 32 ∧
+      AMap.lookup s2.byIP 0x0a000000 = some 1 ∧ AMap.lookup s2.recs 1 = none ∧
+      (Aliased.alloc s2 2).2 = .error ∧ (Aliased.alloc (Aliased.alloc s2 2).1 3).2 = .error ∧
+      -- without the write through the result nothing is left behind
+      (Aliased.alloc (Aliased.release s1 1).1 2).2 = .okAddr 0x0a000000 32 := by
+  decide
+
+/-! non-vacuity: the same history on the model of the code as it is (the write is `scribble`), and two pools
+    that meet on the same unit -/
+example :
+    Pool.answers (Pool.init { famBits := 32, poolPrefix := 30, plen := 32, base := 0x0a000000 })
+      [.alloc 1 false, .scribble, .release 1 false, .alloc 2 false, .qalloc 1 false, .qalloc 2 false, .release 2 false,
+       .qalloc 1 false] =
+      [.okAddr 0x0a000000 32, .ok, .ok, .okAddr 0x0a000000 32, .error, .error, .ok, .okAddr 0x0a000000 32] := by
+  decide
 
 /-! non-vacuity: the wedge scenario of the unfixed code, on the model of the fixed code -/
 def wedge : Pool.State :=
